@@ -202,4 +202,9 @@ func (pxy *HTTPProxy) Close() {
 	for _, closeFn := range pxy.closeFuncs {
 		closeFn()
 	}
+	// release the idle work connections the reverse proxy pooled for this proxy: grouped proxies
+	// are not removed through HTTPReverseProxy.UnRegister, which does this for plain ones
+	if pxy.rc.HTTPReverseProxy != nil {
+		pxy.rc.HTTPReverseProxy.CloseIdleConnections()
+	}
 }
